@@ -1,22 +1,22 @@
-"""C45 / C11 — TaskPool.spawn_on_output under contract (the dispatcher that spawns children on an output).
+"""C45 / C11 — the parts of the absolute-trigger mechanism and of TaskPool.spawn_on_output within reach.
 
-  * C45: when one of the children of the output is an ABSOLUTE dependant (third item of the graph_children
-    entry), the completed output is recorded in abs_outputs_done under (str(point), task name, output) - the
-    record spawn_task consults for every instance spawned later - and nothing is ever removed from it;
-    TaskPool.load_abs_outputs_for_restart puts every row of the abs_outputs table back after a restart.
-  * C11: whatever branch is taken (flow-wait: nothing is spawned; otherwise children are spawned / updated),
-    the last thing done is remove_if_complete(itask, output): a finished task whose outputs are complete is
-    not left in the pool."""
+  * C45: TaskPool.load_abs_outputs_for_restart puts every row of the abs_outputs table back into
+    abs_outputs_done - the record spawn_task consults for every instance spawned later - and nothing is
+    ever removed from it (proved).  The recording itself happens inside the child loop of spawn_on_output
+    (three nested loops, seven callees that may each rewrite the pool): a whole-function contract was
+    written and abandoned - every inner-loop frame obligation timed out, 20 minutes without a verdict
+    (DESIGN 11) - so that loop is covered by the bounded check contracts/c45_bounded.py only.
+  * C11: the PREFIX of spawn_on_output (every top-level statement before `if status_geq(...)`, taken
+    mechanically from the real FunctionDef) is verified as a fragment: on the flow-wait branch nothing is
+    spawned and remove_if_complete(itask, output) is still the last thing done, so a finished task whose
+    outputs are complete does not stay in the pool.
+    What the fragment drops: everything from `if status_geq(...)` on (children, suicide, final removal)."""
 from pyvc.spec import (contract, schema, spec, uninterp, implies, iff, forall, exists, REG)
 import contracts.c09_state  # noqa: F401
 import contracts.c26_pool  # noqa: F401
 import contracts.c07_spawn  # noqa: F401
 import contracts.c11_completion  # noqa: F401
-import contracts.c10_messages  # noqa: F401
-import contracts.c05_pool  # noqa: F401
-from contracts.c18_points import ipt, pt_ok
-from contracts.c26_pool import wf_pool, wf_entries, inpool, at, task_in_pool
-from contracts.c07_spawn import POOL_CONTENT, TASK_FIELDS, cfg_ok
+from contracts.c26_pool import wf_entries, inpool, at
 from contracts.c11_completion import final, oc
 from contracts.c09_state import rank
 
@@ -24,11 +24,11 @@ P = 'cylc.flow.task_pool:TaskPool.'
 PROPS = ['C45']
 
 schema('TaskProxy', 'cylc.flow.task_proxy:TaskProxy', fields={
-    'graph_children': 'dict[str,list[tuple[str,IntegerPoint,bool]]]', 'flow_nums': 'set[int]',
-    'run_mode': 'any'})
+    'graph_children': 'dict[str,list[tuple[str,IntegerPoint,bool]]]', 'flow_nums': 'set[int]'})
 schema('TaskPool', 'cylc.flow.task_pool:TaskPool', fields={
-    'expected_failed_tasks': 'opt[list[str]]', 'abort_task_failed': 'bool',
-    'abs_outputs_done': 'set[tuple[str,str,str]]', 'task_events_mgr': 'TaskEventsManager'})
+    # (a list in the code; only ever asked `x in ...`: modelled by its membership)
+    'expected_failed_tasks': 'opt[set[str]]', 'abort_task_failed': 'bool',
+    'abs_outputs_done': 'set[tuple[str,str,str]]'})
 
 contract(P + 'load_abs_outputs_for_restart',
          sorts={'self': 'TaskPool', 'row_idx': 'int', 'row': 'tuple[str,str,str]',
@@ -49,77 +49,33 @@ contract('cylc.flow.task_state:status_geq',
          sorts={'status_a': 'str', 'status_b': 'str', 'result': 'bool'},
          requires=['rank(status_a) >= 0', 'rank(status_b) >= 0'],
          ensures={'by-rank': 'result == (rank(status_a) >= rank(status_b))'},
-         pure=True, props=PROPS)
-
-schema('Experimental', '', fields={'expire_triggers': 'bool'})
-schema('TaskState', 'cylc.flow.task_state:TaskState', fields={'suicide_prerequisites': 'list[Prerequisite]'})
-
-contract('cylc.flow.workflow_db_mgr:WorkflowDatabaseManager.put_insert_abs_output',
-         sorts={'self': 'WorkflowDatabaseManager'}, assumed=True, props=PROPS,
-         note='queues the insert into the abs_outputs table (SQL: bounded check c45_bounded reads the table)')
-contract('cylc.flow.id:TaskTokens', sorts={'self': 'Tokens'}, assumed=True, props=PROPS,
-         note='identifier object (C23)')
-contract(P + 'id_match',
-         sorts={'self': 'TaskPool', 'result': 'tuple[set[Tokens],set[Tokens]]'}, pure=True, fresh=True,
-         assumed=True, props=PROPS, note='glob matching of identifiers against the pool (C23); reads only')
-contract(P + 'get_itasks',
-         sorts={'self': 'TaskPool', 'result': 'list[TaskProxy]'},
-         ensures={'pooled': 'forall(lambda j: implies(0 <= j and j < len(result), task_in_pool(self, result[j])))'},
-         pure=True, fresh=True, assumed=True, props=PROPS,
-         note='list comprehension over get_tasks(): the pooled tasks whose relative id is among the ids')
-contract('cylc.flow.task_state:TaskState.suicide_prerequisites_all_satisfied',
-         sorts={'self': 'TaskState', 'result': 'bool'}, pure=True, assumed=True, props=PROPS,
-         note='all() over the suicide prerequisites (C13)')
-
-_SPAWN_MOD = POOL_CONTENT + TASK_FIELDS + ['all:dict[str,TaskDef][*]', 'all:deque[TaskProxy][*]',
-                                           'self.abort_task_failed', 'self.stop_task_finished']
+         pure=True, props=['C45', 'C09'])
 
 
 @spec
-def abs_key_recorded(pool, t, output):
-    return (t.point.value, t.tdef.name, output) in pool.abs_outputs_done
-
-
-@spec
-def abs_monotone(pool):
-    return forall(lambda c, n, o: implies(old((c, n, o) in pool.abs_outputs_done),
-                                          (c, n, o) in pool.abs_outputs_done), c="str", n="str", o="str")
+def has_children(t, output):
+    return len(t.flow_nums) > 0 and output in t.graph_children and len(t.graph_children[output]) > 0
 
 
 contract(P + 'spawn_on_output',
          sorts={'self': 'TaskPool', 'itask': 'TaskProxy', 'output': 'str',
-                'children': 'list[tuple[str,IntegerPoint,bool]]', 'c_name': 'str', 'c_point': 'IntegerPoint',
-                'is_abs': 'bool', 'c_task': 'opt[TaskProxy]', 'in_pool': 'bool', 'tasks': 'list[TaskProxy]',
-                't': 'TaskProxy', 'suicide': 'list[TaskProxy]', 'matched': 'set[Tokens]',
-                '_unmatched': 'set[Tokens]'},
-         requires=['wf_entries(self)', 'cfg_ok(self)', 'pt_ok(itask.point)',
-                   # the experimental "expire triggers" route sends the expired message to a suicide-triggered
-                   # task whatever its state: outside C32's clock-expiry sink precondition, not covered here
-                   'not self.config.experimental.expire_triggers',
-                   'forall(lambda o, j: implies(o in itask.graph_children and 0 <= j '
-                   'and j < len(itask.graph_children[o]), pt_ok(itask.graph_children[o][j][1])), o="str")'],
+                'children': 'list[tuple[str,IntegerPoint,bool]]'},
+         requires=['wf_entries(self)'],
          ensures={
-             'an-absolute-output-is-recorded-for-later-instances':
-                 'implies(len(old(itask.flow_nums)) > 0 and output in old(itask.graph_children) '
-                 'and not old(itask.flow_wait) '
-                 'and exists(lambda j: 0 <= j and j < len(old(itask.graph_children[output])) '
-                 'and old(itask.graph_children[output][j][2])), abs_key_recorded(self, itask, output))',
-             'the-record-only-grows': 'abs_monotone(self)',
-             'a-finished-complete-task-does-not-stay-in-the-pool':
-                 'implies(not cylc.flow.flags.cylc7_back_compat and final(itask) and oc(itask.state.outputs), '
+             'flow-wait-still-removes-a-finished-complete-task':
+                 'implies(old(itask.flow_wait) and old(has_children(itask, output)) '
+                 'and not cylc.flow.flags.cylc7_back_compat and final(itask) and oc(itask.state.outputs), '
                  'not inpool(self, itask.point.value, itask.identity))',
+             'flow-wait-leaves-an-unfinished-or-incomplete-task-and-the-pool-alone':
+                 'implies(old(itask.flow_wait) and old(has_children(itask, output)) '
+                 'and not cylc.flow.flags.cylc7_back_compat and not (final(itask) and oc(itask.state.outputs)), '
+                 'forall(lambda p, i: inpool(self, p, i) == old(inpool(self, p, i)) '
+                 'and implies(inpool(self, p, i), at(self, p, i) is old(at(self, p, i))), p="str", i="str"))',
+             'status-untouched': 'itask.state.status == old(itask.state.status)',
          },
-         loops={
-             0: dict(invariant=[
-                 'wf_entries(self)', 'abs_monotone(self)',
-                 'implies(exists(lambda j: 0 <= j and j < _i and children[j][2]), '
-                 'abs_key_recorded(self, itask, output))'],
-                 modifies=_SPAWN_MOD + ['all:list[TaskProxy][*]']),
-             1: dict(invariant=['wf_entries(self)', 'abs_monotone(self)',
-                                'implies(is_abs, abs_key_recorded(self, itask, output))'],
-                     modifies=_SPAWN_MOD),
-             2: dict(invariant=['wf_entries(self)', 'abs_monotone(self)'], modifies=_SPAWN_MOD),
-         },
-         modifies=_SPAWN_MOD + ['all:[*]', 'itask.transient'],
-         options={'merge_ifs': True},
-         props=PROPS + ['C11'])
+         modifies=['all:[*]', 'self.active_tasks_changed', 'self.tasks_removed', 'itask.transient',
+                   'self.stop_task_finished', 'self.abort_task_failed', 'itask.state.is_held',
+                   'itask.state.is_queued', 'itask.state.time_updated', 'itask.state.is_updated',
+                   'itask.state.kill_failed'],
+         options={'fragment_before': 'status_geq'},
+         props=['C11'])
